@@ -86,7 +86,7 @@ def cache_dir(*parts):
     return d
 
 
-def prune_cache(keep=3):
+def prune_cache(keep=2):
     root = os.path.join(BUILD, "cache")
     if not os.path.isdir(root):
         return
@@ -94,7 +94,7 @@ def prune_cache(keep=3):
     now = time.time()
     for mt, e in ents[:-keep]:
         # never touch the current tree's cache or one that another check may still be using
-        if e != tree_hash() and now - mt > 3 * 3600:
+        if e != tree_hash() and now - mt > 5400:
             shutil.rmtree(os.path.join(root, e), ignore_errors=True)
 
 
